@@ -16,7 +16,7 @@ Definition mu2 (s : st) : N :=
 
 Definition finished (s s' : st) : Prop :=
   pending s' = PIdle /\ completions s' = completions s + 1 /\ set_ok (uids s') /\
-  exists b, result s' = Some (b, uids s').
+  (exists b, result s' = Some (b, uids s')) /\ on_complete s' = false.
 
 Definition progress (s s' : st) : Prop :=
   (inv s' /\ completions s' = completions s /\ (G s' < G s \/ (G s' = G s /\ mu2 s' < mu2 s)))
